@@ -47,11 +47,15 @@ def check_doc(ctx, case, gen_els, out):
             acc.violation("geometry-differs", "geometry:unresolved-attribute/%s" % shape, case, observed=str(e), expected="numbers")
             continue
         exp = geom.Box(*[geom.fr(v) for v in box])
-        bad = got is None or got != exp
+        tol = geom.fr(case.get("tol", "0"))
+
+        def far(a, b):
+            return any(abs(x - y) > tol for x, y in zip(a, b))
+        bad = got is None or far(got.tuple(), exp.tuple())
         if not bad and line is not None:
             gl = tuple(geom.attr_num(el, k, F(0)) for k in ("x1", "y1", "x2", "y2"))
             el_exp = tuple(geom.fr(v) for v in line)
-            bad = gl != el_exp
+            bad = far(gl, el_exp)
         if bad:
             wrong.add(eid)
             form = sorted(f for f in feats if f.startswith(("form.", "dir.", "xy-loc", "relsize.", "loc.edge")))
@@ -73,7 +77,11 @@ def make_case(rng, n=None, **kw):
                     [fmt(v) for v in (e.line[0] + e.line[1])] if e.line else None, sorted(e.feats))
     rel = any(e.deps for e in g.all.values())
     deps = {eid: sorted(e.deps) for eid, e in g.all.items()}
-    return dict(input=doc.encode(), els=els, deps=deps, feats=g.features(), relative=rel, chain=max(g.chain.values()))
+    case = dict(input=doc.encode(), els=els, deps=deps, feats=g.features() + (["values.decimal"] if kw.get("decimal") else []), relative=rel, chain=max(g.chain.values()))
+    if kw.get("decimal"):
+        # every hop of a reference chain may add the 3-decimal output rounding of the element referred to
+        case["tol"] = fmt(F(11, 10000) * (1 + case["chain"]))
+    return case
 
 
 def check_case(ctx, case):
@@ -101,7 +109,7 @@ def run_shard(ctx):
         if ctx.out_of_time():
             acc.notes.append("time budget reached after %d docs" % j)
             break
-        case = make_case(rng)
+        case = make_case(rng, decimal=True) if j % 5 == 4 else make_case(rng)
         check_case(ctx, case)
         if j < 2:
             acc.sample(dict(input=case["input"].decode(), expected_boxes={k: v[1] for k, v in case["els"].items()}))
